@@ -529,12 +529,14 @@ func zzC16Pool() []slip.Object {
 	}
 }
 
-// VerifC16Sxhash: enumeration over pairs of the concrete pool: sxhash returns
-// a non-negative fixnum, the same one for the same object, and objects that
-// are equal have the same code.
-func VerifC16Sxhash(i int, j int) {
+// VerifC16Sxhash: enumeration over pairs of the concrete pool (i from the
+// parameter, j by vrt.Choice so that the native replay cross-checks the hash
+// codes the engine computed): sxhash returns a non-negative fixnum, the same
+// one for the same object, and objects that are equal have the same code.
+func VerifC16Sxhash(i int) {
 	scope := slip.NewScope()
 	pool := zzC16Pool()
+	j := vrt.Choice("j", len(pool))
 	x, y := pool[i], pool[j]
 	hx := zzC16Call(scope, "sxhash", slip.List{x})
 	hx2 := zzC16Call(scope, "sxhash", slip.List{x})
@@ -548,11 +550,12 @@ func VerifC16Sxhash(i int, j int) {
 	eqv := zzC16Pred(scope, "equal", x, y)
 	vrt.Assert(zzC16IsBool(eqv), "equal does not return a boolean")
 	vrt.Reach("hashed")
-	vrt.Note("pair", i, j, eqv.val, int64(fx) == int64(fy))
+	vrt.Note("pair", i, j, eqv.val, int64(fx), int64(fy))
 	if eqv.val {
 		// known finding: objects of different Go type/content that are equal
 		vrt.Carve("C16-sxhash-not-equal-invariant", !zzC16Same(x, y))
 		vrt.Assert(fx == fy, "equal objects with different sxhash")
+		vrt.Reach("equal-pair")
 	}
 }
 
@@ -969,13 +972,4 @@ func VerifC16Coerce(k int, ti int) {
 	vrt.Carve("C16-coerce-signed-to-unsigned", fromSB && t == "unsigned-byte")
 	tp := zzC16Typep(scope, r.obj, slip.Symbol(t))
 	vrt.Assert(tp.class == 0 && tp.val, "(coerce x T) returned an object that is not typep T")
-}
-
-func VerifC16Dbg() {
-	_ = vrt.Bool("d")
-	names := zzC16Classes()
-	vrt.Note("n", len(names), slip.CurrentPackage.Name)
-	for _, n := range names {
-		vrt.Note("c", n)
-	}
 }
